@@ -216,3 +216,139 @@ def merge_judge(results):
 def judge_shards(judge, args_of_shard, nshards):
     with ThreadPoolExecutor(min(nshards, NPROC)) as ex:
         return merge_judge(list(ex.map(lambda i: run_judge(judge, args_of_shard(i)), range(nshards))))
+
+
+# ------------------------------------------------------------------------------ pipeline pieces
+def shards_for(ctx):
+    return min(NPROC, 16)
+
+
+def gen_cases(ctx, drv, wd):
+    """io_drv gen (sharded) -> one cases file; corpus cases (corpus/C06/*.cases) are put first."""
+    N = shards_for(ctx)
+    outs = run_shards(drv, lambda i: ["gen", ctx.tier, i, N], N, lambda i: wd / ("cases.%d.txt" % i), ctx.seed)
+    cases = wd / "cases.txt"
+    with open(cases, "w") as f:
+        for c in sorted((VERIF / "corpus" / "C06").glob("*.cases")):
+            f.write(c.read_text())
+        for o in outs:
+            f.write(Path(o).read_text())
+    return cases
+
+
+def case_index(cases_path):
+    """id -> (header line, write result, bytes)"""
+    idx, cur = {}, None
+    with open(cases_path) as f:
+        for l in f:
+            if l.startswith("CASE "):
+                cur = l.split()[1]
+                idx[cur] = {"hdr": l.strip(), "w": "", "bytes": b""}
+            elif cur and l.startswith("W "):
+                idx[cur]["w"] = l[2:].strip()
+            elif cur and l.startswith("B "):
+                h = l[2:].strip()
+                idx[cur]["bytes"] = b"" if h == "-" else bytes.fromhex(h)
+            elif l.startswith("END"):
+                cur = None
+    return idx
+
+
+def split_lines(path, n, prefix):
+    """distribute the lines of `path` starting with `prefix` round-robin over n files; returns their paths"""
+    outs = [Path(str(path) + ".%d" % i) for i in range(n)]
+    fs = [open(o, "w") for o in outs]
+    k = 0
+    with open(path) as f:
+        for l in f:
+            if l.startswith(prefix):
+                fs[k % n].write(l)
+                k += 1
+    for f in fs:
+        f.close()
+    return outs, k
+
+
+def read_jobs(drv, jobs_path, wd, tag, seed):
+    """run `io_drv read` on a J-lines file, sharded; returns [(jobs_i, results_i)]"""
+    N = min(NPROC, 16)
+    parts, k = split_lines(jobs_path, N, "J ")
+    res = run_shards(drv, lambda i: ["read", parts[i]], N, lambda i: wd / ("%s.res.%d.txt" % (tag, i)), seed)
+    return list(zip(parts, res)), k
+
+
+def ddmin_bytes(data, still_fails, max_tests=400):
+    """byte-level delta debugging: smallest subsequence found (removing chunks) that still fails"""
+    n, tests = 2, 0
+    data = bytes(data)
+    while len(data) >= 2 and tests < max_tests:
+        chunk = max(1, len(data) // n)
+        reduced = False
+        for i in range(0, len(data), chunk):
+            cand = data[:i] + data[i + chunk:]
+            tests += 1
+            if cand and still_fails(cand):
+                data, n, reduced = cand, max(n - 1, 2), True
+                break
+            if tests >= max_tests:
+                break
+        if not reduced:
+            if chunk == 1:
+                break
+            n = min(len(data), n * 2)
+    return data
+
+
+def read_one(drv, mk, tc, bu, data, fail_at=-1, style=0, seed=1, wd=None):
+    """one isolated read of `data`; returns (class, detail)"""
+    wd = wd or (IOB / "tmp")
+    wd.mkdir(parents=True, exist_ok=True)
+    jf = wd / ("one.%d.txt" % os.getpid())
+    jf.write_text("J x %s %d %d %d %d %s\n" % (mk, tc, bu, fail_at, style, data.hex() if data else "-"))
+    env = dict(os.environ)
+    env.update(DRV_ENV)
+    env["IO_ERRFILE"] = str(jf.with_suffix(".err"))
+    p = subprocess.run([str(drv), "read", str(jf)], stdout=subprocess.PIPE, stderr=subprocess.PIPE, env=env, text=True, errors="replace", timeout=120)
+    for l in p.stdout.splitlines():
+        if l.startswith("R x "):
+            t = l.split(" ", 3)
+            return t[2], (t[3] if len(t) > 3 else "")
+    return "?", p.stderr[-300:]
+
+
+def report_fails(ctx, drv, fails, label, limit=6):
+    """turn judge FAIL records into violations with shrunk replays; returns number reported"""
+    seen = set()
+    n = 0
+    for f in fails:
+        sig = "%s:%s" % (label, f["kind"])
+        key = (f["kind"], re.sub(r"[0-9]+", "#", f["detail"])[:120])
+        if key in seen:
+            continue
+        seen.add(key)
+        if n >= limit:
+            break
+        n += 1
+        data = bytes.fromhex(f["hex"]) if f["hex"] not in ("", "-") else b""
+        txt = ["property %s: %s" % (ctx.pid, f["kind"]), "case/job id: %s" % f["id"], "observed vs expected: %s" % f["detail"]]
+        m = re.search(r"kind ([pth]), topology_check (true|false), fault (none|\(?some (\d+)\)?)", f["detail"])
+        mk, tc, fa = "p", 1, -1
+        if m:
+            mk, tc = m.group(1), 1 if m.group(2) == "true" else 0
+            fa = int(m.group(4)) if m.group(4) else -1
+        shrunk = data
+        if data and f["kind"] in ("reader-crash", "reader-hang", "ok-but-not-WF", "ok-but-invalid-mesh") and len(data) <= 200000:
+            want = "crash" if f["kind"] == "reader-crash" else "hang" if f["kind"] == "reader-hang" else "ok"
+            if want != "ok":
+                try:
+                    shrunk = ddmin_bytes(data, lambda d: read_one(drv, mk, tc, 1, d, fa, 0, ctx.seed)[0] == want, 150)
+                except Exception:
+                    shrunk = data
+        txt.append("reader config: mesh type %s, topology_check %d, bottom_up 1 (and 0), read-fault position %d" % (mk, tc, fa))
+        txt.append("replay: echo 'J r %s %d 1 %d 0 <hex>' > j.txt; <io_drv> read j.txt   (driver: tools/ovmb_common.driver('io_drv'))" % (mk, tc, fa))
+        if shrunk != data:
+            txt.append("minimised bytes (%d of %d): %s" % (len(shrunk), len(data), shrunk.hex()))
+        txt.append("bytes (%d): %s" % (len(data), data.hex() if len(data) <= 400000 else data[:2000].hex() + "..."))
+        p = ctx.write_replay("%s-%s-%d.txt" % (label, re.sub(r"[^A-Za-z0-9]+", "_", f["kind"])[:40], n), "\n".join(txt) + "\n")
+        ctx.violation(p, "%s: %s (%s)" % (f["kind"], f["detail"][:200], f["id"]), found_input=bool(data) or "hex" in f, sig=sig)
+    return n
